@@ -119,6 +119,13 @@ theorem markIf_inv {s : St} {drop : Option Bool} {RL RR PL PR : List Rec} (leftD
       subst hp
       exact ⟨drop, hi, rfl, hdrop, hd, rfl, rfl, rfl⟩
 
+/-- `P'` extends `P` by records that were in the buffer -/
+def Released (P P' : List Rec) (buf : Buf) : Prop := ∃ b, P' = P ++ b ∧ ∀ x ∈ b, x ∈ bufAll buf
+
+theorem released_refl (P : List Rec) (buf : Buf) : Released P P buf := ⟨[], by simp, by simp⟩
+theorem released_emit (P : List Rec) (bd : Bound) (buf : Buf) : Released P (P ++ (Buf.emit bd buf).1) buf :=
+  ⟨_, rfl, fun _ hx => mem_emit_of hx⟩
+
 /-! ### the select arms while both inputs are open -/
 /-- what a watermark arm does to the variables of `Run` -/
 def WmStep (s : St) (left : Bool) (w : Int) (s' : St) : Prop :=
@@ -132,7 +139,7 @@ theorem onWm_step (ok : RecvOK cfg W) {s s' : St} {RL RR PL PR : List Rec} {left
     (hi : Inv cfg W s none RL RR PL PR)
     (hshL : ∀ x ∈ RL, Shape cfg true x) (hshR : ∀ x ∈ RR, Shape cfg false x)
     (h : onWm cfg s left w = .ok s') :
-    ∃ PL' PR', Inv cfg W s' none RL RR PL' PR' ∧ WmStep s left w s' := by
+    ∃ PL' PR', Inv cfg W s' none RL RR PL' PR' ∧ Released PL PL' s.bufL ∧ Released PR PR' s.bufR ∧ WmStep s left w s' := by
   unfold onWm at h
   -- the state after recording the watermark
   generalize hs0 : (if left = true then { s with lw := some w } else { s with rw := some w } : St) = s0 at h
@@ -162,7 +169,7 @@ theorem onWm_step (ok : RecvOK cfg W) {s s' : St} {RL RR PL PR : List Rec} {left
     simp only at h
     have h := (Except.ok.inj h).symm
     subst h
-    refine ⟨PL, PR, hi0, e1, e2, Or.inl ⟨e3, e4, e5, e6, ?_⟩⟩
+    refine ⟨PL, PR, hi0, released_refl _ _, released_refl _ _, e1, e2, Or.inl ⟨e3, e4, e5, e6, ?_⟩⟩
     rw [hm]; exact after_none_left _
   | some m =>
     rw [hm] at h
@@ -180,7 +187,7 @@ theorem onWm_step (ok : RecvOK cfg W) {s s' : St} {RL RR PL PR : List Rec} {left
         obtain ⟨hi2, b1, b2, f⟩ := processUpTo_inv ok (drop := none) (by simp) hi1 hshL hshR hp
         obtain ⟨f1, f2, f3, em, f4⟩ := f
         subst h
-        refine ⟨_, _, ⟨⟨?_, hi2.core.trees⟩, hi2.permL, hi2.permR⟩, by rw [← e1]; exact f1, by rw [← e2]; exact f2, Or.inr ⟨m, em, ?_, by rw [← e3]; exact ha, f3, ?_, ?_, ?_⟩⟩
+        refine ⟨_, _, ⟨⟨?_, hi2.core.trees⟩, hi2.permL, hi2.permR⟩, (by rw [← e4]; exact released_emit _ _ _), (by rw [← e5]; exact released_emit _ _ _), by rw [← e1]; exact f1, by rw [← e2]; exact f2, Or.inr ⟨m, em, ?_, by rw [← e3]; exact ha, f3, ?_, ?_, ?_⟩⟩
         · intro row
           show net (recs (s1.out ++ [Msg.wm m])) row = _
           rw [recs_snoc_wm]; exact hi2.core.out row
@@ -195,7 +202,7 @@ theorem onWm_step (ok : RecvOK cfg W) {s s' : St} {RL RR PL PR : List Rec} {left
     · rw [if_neg ha] at h
       have h := (Except.ok.inj h).symm
       subst h
-      refine ⟨PL, PR, hi0, e1, e2, Or.inl ⟨e3, e4, e5, e6, ?_⟩⟩
+      refine ⟨PL, PR, hi0, released_refl _ _, released_refl _ _, e1, e2, Or.inl ⟨e3, e4, e5, e6, ?_⟩⟩
       rw [hm, ← e3]
       exact Bool.eq_false_iff.mpr ha
 
@@ -204,7 +211,8 @@ theorem onFirstClose_step (ok : RecvOK cfg W) (hsw : cfg.switchOsr = false) {s s
     {leftDone osr : Bool} (hi : Inv cfg W s none RL RR PL PR)
     (hshL : ∀ x ∈ RL, Shape cfg true x) (hshR : ∀ x ∈ RR, Shape cfg false x)
     (h : onFirstClose cfg s leftDone = .ok (s', osr)) :
-    ∃ PL' PR' drop', Inv cfg W s' drop' RL RR PL' PR' ∧ osr = drop'.isSome ∧
+    ∃ PL' PR' drop', Inv cfg W s' drop' RL RR PL' PR' ∧ Released PL PL' s.bufL ∧ Released PR PR' s.bufR ∧
+      osr = drop'.isSome ∧
       (drop' = none ∨ drop' = some (!leftDone)) ∧ (drop'.isSome = true → cfg.outer = false) ∧
       s'.bufL = (Buf.emit (.at (if leftDone then s.rw else s.lw)) s.bufL).2 ∧
       s'.bufR = (Buf.emit (.at (if leftDone then s.rw else s.lw)) s.bufR).2 ∧
@@ -223,7 +231,7 @@ theorem onFirstClose_step (ok : RecvOK cfg W) (hsw : cfg.switchOsr = false) {s s
     obtain ⟨hi2, b1, b2, f⟩ := processUpTo_inv ok (drop := none) (by simp) hi1 hshL hshR hp
     obtain ⟨f1, f2, f3, em, f4⟩ := f
     obtain ⟨drop', hi3, hosr, hdr, hdo, c1, c2, c3⟩ := markIf_inv (drop := none) leftDone (Or.inl rfl) (by simp) hi2 h
-    exact ⟨_, _, drop', hi3, hosr, hdr, hdo, by rw [c1, b1], by rw [c2, b2], em, by rw [c3, f4]⟩
+    exact ⟨_, _, drop', hi3, released_emit _ _ _, released_emit _ _ _, hosr, hdr, hdo, by rw [c1, b1], by rw [c2, b2], em, by rw [c3, f4]⟩
 
 theorem onWmOne_step (ok : RecvOK cfg W) {s s' : St} {drop : Option Bool} {RL RR PL PR : List Rec}
     {leftDone osr : Bool} {w : Int}
@@ -231,7 +239,8 @@ theorem onWmOne_step (ok : RecvOK cfg W) {s s' : St} {drop : Option Bool} {RL RR
     (hi : Inv cfg W s drop RL RR PL PR)
     (hshL : ∀ x ∈ RL, Shape cfg true x) (hshR : ∀ x ∈ RR, Shape cfg false x)
     (h : onWmOne cfg s leftDone drop.isSome w = .ok (s', osr)) :
-    ∃ PL' PR' drop', Inv cfg W s' drop' RL RR PL' PR' ∧ osr = drop'.isSome ∧
+    ∃ PL' PR' drop', Inv cfg W s' drop' RL RR PL' PR' ∧ Released PL PL' s.bufL ∧ Released PR PR' s.bufR ∧
+      osr = drop'.isSome ∧
       (drop' = none ∨ drop' = some (!leftDone)) ∧ (drop'.isSome = true → cfg.outer = false) ∧
       s'.bufL = (Buf.emit (.at (some w)) s.bufL).2 ∧ s'.bufR = (Buf.emit (.at (some w)) s.bufR).2 ∧
       ∃ em, s'.out = s.out ++ dataMsgs em ++ [Msg.wm w] := by
@@ -249,7 +258,7 @@ theorem onWmOne_step (ok : RecvOK cfg W) {s s' : St} {drop : Option Bool} {RL RR
       (congrArg Prod.fst h).symm
     have h2 : osr = (markIf cfg leftDone s1 drop.isSome).2 := (congrArg Prod.snd h).symm
     subst h1
-    refine ⟨_, _, drop', ⟨⟨fun row => ?_, ?_⟩, hi3.permL, hi3.permR⟩, by rw [h2, hosr], hdr, hdo, by rw [← b1]; exact c1, by rw [← b2]; exact c2, em, ?_⟩
+    refine ⟨_, _, drop', ⟨⟨fun row => ?_, ?_⟩, hi3.permL, hi3.permR⟩, released_emit _ _ _, released_emit _ _ _, by rw [h2, hosr], hdr, hdo, by rw [← b1]; exact c1, by rw [← b2]; exact c2, em, ?_⟩
     · show net (recs ((markIf cfg leftDone s1 drop.isSome).1.out ++ [Msg.wm w])) row = _
       rw [recs_snoc_wm]; exact hi3.core.out row
     · have := hi3.core.trees
@@ -278,20 +287,21 @@ theorem onRec_left (ok : RecvOK cfg W) {s s' : St} {drop : Option Bool} {RL RR P
     (h : onRec cfg s true x drop.isSome = .ok s') :
     ∃ PL', Inv cfg W s' drop (RL ++ [x]) RR PL' PR ∧ (∃ em, s'.out = s.out ++ dataMsgs em) ∧
       s'.lw = s.lw ∧ s'.rw = s.rw ∧ s'.minW = s.minW ∧ s'.bufR = s.bufR ∧
-      (∀ t, x.et = some t → s'.bufL = Buf.add t x s.bufL) := by
+      (∀ t, x.et = some t → s'.bufL = Buf.add t x s.bufL ∧ PL' = PL) ∧
+      (x.et = none → s'.bufL = s.bufL ∧ PL' = PL ++ [x]) := by
   unfold onRec at h
   cases het : x.et with
   | none =>
     rw [het] at h
     simp only at h
     obtain ⟨hi', b1, b2, f1, f2, f3, em, f4⟩ := directRecv_left ok hd hopen hi hsh h
-    exact ⟨_, hi', ⟨em, f4⟩, f1, f2, f3, b2, fun t ht => by cases ht⟩
+    exact ⟨_, hi', ⟨em, f4⟩, f1, f2, f3, b2, (fun t ht => by cases ht), fun _ => ⟨b1, rfl⟩⟩
   | some t =>
     rw [het] at h
     simp only at h
     have h := (Except.ok.inj h).symm
     subst h
-    refine ⟨_, addBuf_left x t hopen hi, ⟨[], by simp [addBuf, dataMsgs]⟩, by simp [addBuf], by simp [addBuf], by simp [addBuf], by simp [addBuf], fun t' ht' => ?_⟩
+    refine ⟨_, addBuf_left x t hopen hi, ⟨[], by simp [addBuf, dataMsgs]⟩, by simp [addBuf], by simp [addBuf], by simp [addBuf], by simp [addBuf], fun t' ht' => ?_, fun h' => by cases h'⟩
     have := Option.some.inj ht'; subst this
     simp [addBuf]
 
@@ -301,20 +311,21 @@ theorem onRec_right (ok : RecvOK cfg W) {s s' : St} {drop : Option Bool} {RL RR 
     (h : onRec cfg s false x drop.isSome = .ok s') :
     ∃ PR', Inv cfg W s' drop RL (RR ++ [x]) PL PR' ∧ (∃ em, s'.out = s.out ++ dataMsgs em) ∧
       s'.lw = s.lw ∧ s'.rw = s.rw ∧ s'.minW = s.minW ∧ s'.bufL = s.bufL ∧
-      (∀ t, x.et = some t → s'.bufR = Buf.add t x s.bufR) := by
+      (∀ t, x.et = some t → s'.bufR = Buf.add t x s.bufR ∧ PR' = PR) ∧
+      (x.et = none → s'.bufR = s.bufR ∧ PR' = PR ++ [x]) := by
   unfold onRec at h
   cases het : x.et with
   | none =>
     rw [het] at h
     simp only at h
     obtain ⟨hi', b1, b2, f1, f2, f3, em, f4⟩ := directRecv_right ok hd hopen hi hsh h
-    exact ⟨_, hi', ⟨em, f4⟩, f1, f2, f3, b1, fun t ht => by cases ht⟩
+    exact ⟨_, hi', ⟨em, f4⟩, f1, f2, f3, b1, (fun t ht => by cases ht), fun _ => ⟨b2, rfl⟩⟩
   | some t =>
     rw [het] at h
     simp only at h
     have h := (Except.ok.inj h).symm
     subst h
-    refine ⟨_, addBuf_right x t hopen hi, ⟨[], by simp [addBuf, dataMsgs]⟩, by simp [addBuf], by simp [addBuf], by simp [addBuf], by simp [addBuf], fun t' ht' => ?_⟩
+    refine ⟨_, addBuf_right x t hopen hi, ⟨[], by simp [addBuf, dataMsgs]⟩, by simp [addBuf], by simp [addBuf], by simp [addBuf], by simp [addBuf], fun t' ht' => ?_, fun h' => by cases h'⟩
     have := Option.some.inj ht'; subst this
     simp [addBuf]
 
